@@ -1129,10 +1129,13 @@ fn threads_check(ctx: &mut Ctx, methods: &[&str]) {
             iters = *ctx.rng.pick(&[2u64, 3, 4, 6]);
             force_default_target = i % 12 == 7;
         }
-        if i % 12 == 1 {
+        // (residues 1 and 14 of 24: one odd and one even case, so that both methods of C07 meet the
+        // family, and the odd residue 13 stays with the mixed stream - budgets of zero, players
+        // without infosets and the like must keep reaching the second method of the list)
+        if i % 24 == 1 || i % 24 == 14 {
             // a leaf or a coin still in the queue when the frontier walk stops: terminals and chance
             // nodes become tasks, their payoffs go through the cache
-            t = if (i / 12) % 2 == 0 { early_exit(&mut ctx.rng) } else { coins_behind_choice(&mut ctx.rng) };
+            t = if (i / 24) % 2 == 0 { early_exit(&mut ctx.rng) } else { coins_behind_choice(&mut ctx.rng) };
             fam = "leaf-on-the-frontier";
             threads = *ctx.rng.pick(&[2usize, 2, 3]);
             iters = *ctx.rng.pick(&[2u64, 3, 4, 6]);
@@ -1156,6 +1159,20 @@ fn threads_check(ctx: &mut Ctx, methods: &[&str]) {
         let thr = if exact_zero { 0.0 } else if ctx.rng.chance(0.2) { 0.05 * t.range() } else { 0.0 };
         let seed = ctx.rng.next() >> 12;
         let params = if exact_zero { *ctx.rng.pick(&[Params::dcfr(), Params::cfr_plus(), Params::lcfr()]) } else { params };
+        // tuples for which the ORDER of the update steps of `advance` shows (match, then discount):
+        // positive regrets discounted to nothing, a finite soft-max weight - every solver has its
+        // own copy of that sequence (one even and one odd residue: both methods of C07)
+        let params = if !exact_zero && (i % 8 == 2 || i % 8 == 7) {
+            ctx.stat("params_order_sensitive");
+            *ctx.rng.pick(&[
+                Params { pos: -INF, neg: 0.5, strat: 2.0, nopos: 0.0 },
+                Params { pos: -INF, neg: INF, strat: 1.0, nopos: INF },
+                Params { pos: -INF, neg: 0.0, strat: 1.0, nopos: 20.0 },
+                Params { pos: -INF, neg: INF, strat: 0.0, nopos: -1.0 },
+            ])
+        } else {
+            params
+        };
         // the unlimited budget (what the documentation recommends together with a threshold, and what
         // the CLI passes for -t 0) with a threshold the run reaches
         let (iters, thr) = if i % 12 == 9 && t.size() <= 200 {
